@@ -11,6 +11,6 @@ void harness(void)
         g_k = nondet_size();
         g_sat = 0; g_ndig = 0; g_size = 0; g_nesc = 0;
         h_obj.position = nondet_size();
-        parse_uint_decimal(&h_obj, &out);
+        parse_num_hexadecimal(&h_obj, &out);
         __CPROVER_assert(0, "CANARY end of harness reachable");
 }
